@@ -81,6 +81,14 @@ ID_PREFIX = [
     {'I': 'E', 'L': 'E', 'V': 'E', 'P': 'E', 'C': 'E', 'nested': True},   # ids that are substrings of one another: E1, E11, E111, ...
 ]
 N_SCHEMES = len(NODE_NAMES) * len(ID_PREFIX)
+# index of the i-th element within its prefix: a scheme number s + k * N_SCHEMES uses the k-th table.  The tables are complementary: two elements of one
+# role at neighbouring positions (the canonical generators list equal kinds next to each other) are listed in alphabetical order under one table and
+# against it under another, and the third lists every neighbouring pair of the first ten against the alphabet
+ID_PERMS = [
+    [5, 3, 8, 1, 9, 2, 7, 4, 6, 0, 11, 10],
+    [4, 8, 3, 9, 1, 7, 2, 6, 0, 5, 10, 11],
+    [9, 8, 7, 6, 5, 4, 3, 2, 1, 0, 11, 10],
+]
 
 
 @dataclass
@@ -98,7 +106,7 @@ class Naming:
         table = ID_PREFIX[(self.scheme // len(NODE_NAMES)) % len(ID_PREFIX)]
         pref = table[role]
         i = int(i)
-        idx = [5, 3, 8, 1, 9, 2, 7, 4, 6, 0, 11, 10][i] if i < 12 else 100 + i
+        idx = ID_PERMS[(self.scheme // N_SCHEMES) % len(ID_PERMS)][i] if i < 12 else 100 + i
         if table.get('nested'):
             return pref + '1' * (idx + 1 if i < 12 else i + 1)
         return f'{pref}_{idx}'
